@@ -71,6 +71,13 @@ def render(nodes, base):
                 write(os.path.join(base, n["at"]), json.dumps(render(n["body"], base)) if n.get("wellformed", True) else "{a: [")
             else:
                 render(n["body"], base)
+        elif t == "seqfile":
+            out[n["key"]] = real(n["given"], base)
+            if n["at"] is not None:
+                items = [real(g, base) for g in n["items"]]
+                # one line of JSON (flow sequence), or a YAML block sequence
+                text = json.dumps(items) if n.get("flow", True) or n["at"].endswith(".json") else "".join("- %s\n" % json.dumps(g) for g in items)
+                write(os.path.join(base, n["at"]), text)
         elif t == "listfile":
             out[n["key"]] = real(n["given"], base)
             if n["at"] is not None:
